@@ -58,7 +58,7 @@ def make_matrix(rng, kind, nmax, weighted=True, nmin=5):
                     E.add((i, j))
         E = sorted(E)
         W = [(i, j, rng.randint(1, 4) if weighted else 1) for (i, j) in E]
-        return dict(shape=[r, c], coo=[list(e) for e in W], dtype=_storage(rng), fmt='csr'), r, c, 'bip'
+        return dict(shape=[r, c], coo=[list(e) for e in W], dtype=_storage(rng, W), fmt='csr'), r, c, 'bip'
     if kind == 'symconn':
         n, E, fam = connected_sym(rng, nmax, nmin)
         directed = False
@@ -80,12 +80,15 @@ def make_matrix(rng, kind, nmax, weighted=True, nmin=5):
         W, _ = gen.random_weights(rng, E, directed=directed, kind=rng.choice(['unit', 'small_int']))
     else:
         W = [(i, j, 1) for (i, j) in E]
-    return dict(shape=[n, n], coo=[list(e) for e in W], dtype=_storage(rng), fmt='csr'), n, n, fam + ('_dir' if directed else '_sym')
+    return dict(shape=[n, n], coo=[list(e) for e in W], dtype=_storage(rng, W), fmt='csr'), n, n, fam + ('_dir' if directed else '_sym')
 
 
-def _storage(rng):
+def _storage(rng, W=()):
     """storage type of the generated matrix: the weights are integers 1..5, exact in each of these (narrow integer types are what
-    loaders and `astype` calls leave behind; sums of two weights still fit, so a type-preserving A + A.T is not yet at risk here)"""
+    loaders and `astype` calls leave behind; sums of two weights still fit, so a type-preserving A + A.T is not yet at risk here);
+    an unweighted graph is stored as bool a quarter of the time, as the loaders of the library return it"""
+    if W and all(e[2] == 1 for e in W) and rng.random() < 0.25:
+        return 'bool'
     return rng.choice(['int'] * 8 + ['int32', 'uint8', 'int8', 'float'])
 
 
